@@ -74,11 +74,22 @@ func buildFixtures(seed uint64) *Fix {
 		r.Bytes(s[:])
 		f.Seeds = append(f.Seeds, s)
 	}
+	// near-collisions on purpose: a cache keyed too coarsely (by a prefix, a
+	// length, a height) must meet inputs that differ only elsewhere
+	f.Seeds[5] = f.Seeds[4]
+	f.Seeds[5][47] ^= 0x01
+	f.Seeds[3] = f.Seeds[2]
+	f.Seeds[3][0] ^= 0x80
 	for _, n := range []int{0, 7, 32, 33, 200, 1500} {
 		m := make([]byte, n)
 		r.Bytes(m)
 		f.Msgs = append(f.Msgs, m)
 	}
+	m6 := append([]byte(nil), f.Msgs[4]...) // same length and prefix as Msgs[4]
+	m6[len(m6)-1] ^= 0x01
+	m7 := append([]byte(nil), f.Msgs[2]...) // same length and suffix as Msgs[2]
+	m7[0] ^= 0x01
+	f.Msgs = append(f.Msgs, m6, m7)
 	for i := 0; i < 2; i++ {
 		d, err := dilithium.NewDilithiumFromSeed(f.Seeds[i])
 		if err != nil {
@@ -108,8 +119,16 @@ func buildFixtures(seed uint64) *Fix {
 		}
 	}
 	f.DSeal = append(f.DSeal, []byte{1, 2, 3}) // shorter than a signature
-	for i := 0; i < 2; i++ {
-		k := xmss.NewXMSSFromSeed(f.Seeds[2+i], 4, xmss.HashFunction((int(seed)+i)%3), common.SHA256_2X)
+	for i := 0; i < 3; i++ {
+		// keys 0 and 2: same height, same hash function, different seed;
+		// keys 0 and 1: seeds differing in one bit, different hash function
+		hf := xmss.HashFunction((int(seed) + i) % 3)
+		ks := f.Seeds[2+i%2]
+		if i == 2 {
+			hf = xmss.HashFunction(int(seed) % 3)
+			ks = f.Seeds[0]
+		}
+		k := xmss.NewXMSSFromSeed(ks, 4, hf, common.SHA256_2X)
 		pk := k.GetPK()
 		f.XPK = append(f.XPK, pk)
 		f.Addr = append(f.Addr, k.GetAddress())
@@ -128,6 +147,9 @@ func buildFixtures(seed uint64) *Fix {
 			bad := append([]byte(nil), s...)
 			bad[4+r.Intn(len(bad)-4)] ^= 1 << uint(r.Intn(8))
 			f.XSig = append(f.XSig, xsig{m + 2, i, bad})
+			if i == 2 && m == 0 { // a valid signature presented with the wrong (same-shape) public key
+				f.XSig = append(f.XSig, xsig{m + 2, 0, s})
+			}
 		}
 	}
 	f.Addr = append(f.Addr, f.Dil[0].GetAddress())
